@@ -23,6 +23,13 @@ pub struct Q {
     pub a: String,
     pub n: Option<u32>,
 }
+/// a user-defined extractor assembled by `#[derive(FromRequest)]`
+#[derive(ohkami::FromRequest)]
+pub struct Dv {
+    q: Query<Q>,
+    j: JSON<J>,
+}
+
 #[derive(Debug, Clone, PartialEq, Serialize, Deserialize, Schema)]
 pub struct J {
     pub s: String,
@@ -137,23 +144,35 @@ fn build() -> VerifRouter {
         }),
         &mut o,
     );
+    Routing::<()>::apply("/x/derived".POST(|d: Dv| async move { ran("derived", vec![js(&d.q.0), js(&d.j.0)]); "ok" }), &mut o);
+    Routing::<()>::apply(
+        "/x/optderived".POST(|d: Option<Dv>| async move {
+            ran("optderived", match d {
+                Some(d) => vec![js(&d.q.0), js(&d.j.0)],
+                None => vec!["null".into()],
+            });
+            "ok"
+        }),
+        &mut o,
+    );
     VerifRouter::new(o)
 }
 
 fn enc(s: &str) -> String {
     s.bytes().map(|b| if b.is_ascii_alphanumeric() || b"-._~".contains(&b) { (b as char).to_string() } else { format!("%{b:02X}") }).collect()
 }
+/// (keys may be percent-encoded as well as values: `%61=…` is the key `a`; which spelling is used is a function of the value)
 fn encode_query(q: &Q) -> String {
-    let mut parts = vec![format!("a={}", enc(&q.a))];
+    let mut parts = vec![format!("{}={}", if q.a.len() % 3 == 0 { "%61" } else { "a" }, enc(&q.a))];
     if let Some(n) = q.n {
-        parts.push(format!("n={n}"));
+        parts.push(format!("{}={n}", if n % 3 == 0 { "%6E" } else { "n" }));
     }
     parts.join("&")
 }
 fn encode_form(u: &U) -> String {
-    let mut parts = vec![format!("name={}", enc(&u.name)), format!("age={}", u.age)];
+    let mut parts = vec![format!("{}={}", if u.age % 4 == 0 { "n%61me" } else { "name" }, enc(&u.name)), format!("{}={}", if u.name.len() % 4 == 0 { "%61ge" } else { "age" }, u.age)];
     if let Some(n) = &u.note {
-        parts.push(format!("note={}", enc(n)));
+        parts.push(format!("{}={}", if n.len() % 2 == 0 { "%6Eote" } else { "note" }, enc(n)));
     }
     parts.join("&")
 }
@@ -180,10 +199,21 @@ fn body_bytes(b: &BodyKind) -> Option<(Vec<u8>, &'static str, Option<String>)> {
         BodyKind::Json(j) => Some((serde_json::to_vec(j).unwrap(), "application/json", Some(js(j)))),
         BodyKind::JsonCorrupt(j, how) => {
             let mut v: serde_json::Value = serde_json::to_value(j).unwrap();
-            let bytes = match how % 4 {
+            let bytes = match how % 6 {
                 0 => {
                     let mut b = serde_json::to_vec(j).unwrap();
                     b.pop();
+                    b
+                }
+                // a complete, well-typed value followed by something else: not a JSON text
+                4 => {
+                    let mut b = serde_json::to_vec(j).unwrap();
+                    b.extend_from_slice(b"]");
+                    b
+                }
+                5 => {
+                    let mut b = serde_json::to_vec(j).unwrap();
+                    b.extend_from_slice(b" {\"s\":\"second\",\"n\":1,\"b\":2}");
                     b
                 }
                 1 => {
@@ -327,7 +357,7 @@ fn segment_ok(s: &str) -> bool {
 impl Property for C07 {
     type Case = Case;
     const ID: &'static str = "C07";
-    const RULE: &'static str = "generated: requests against a compiled catalogue of 59 handler signatures — every built-in param type (String, Cow<str>, &str, the ten integer types) in first and second position and as the only parameter of a route that captures two, Query/JSON/Option<JSON>/URLEncoded/Multipart/Text extractors alone and in combinations of 3 and 4 items. Param segments from a grammar (digit strings of 1–25 digits, leading zeros, signs, digits with garbage head or tail, MIN−1/MIN/MAX/MAX+1 of every width, 1e3, 0x10, full-width digits, percent-encoded digits/signs/UTF-8, %FF, trailing %); bodies = a generated value encoded by a reference encoder of its format, valid or corrupted (truncated, missing field, wrong type), with exact / parameterised / other / missing Content-Type or a proper prefix of the media type. Oracle: Rust FromStr on the canonical integer grammar after percent-decoding; value equality for strings/bodies; invalid or missing ⇒ status ≥ 400 and the handler did not run; Option is None iff the Content-Type is absent/other or there is no payload. Non-trivial = an integer segment that is not a plain in-range literal, an encoded segment, or a body case other than valid + exact type; distinct by case.";
+    const RULE: &'static str = "generated: requests against a compiled catalogue of 61 handler signatures — every built-in param type (String, Cow<str>, &str, the ten integer types) in first and second position and as the only parameter of a route that captures two, Query/JSON/Option<JSON>/URLEncoded/Multipart/Text extractors alone and in combinations of 3 and 4 items, a `#[derive(FromRequest)]` struct over Query+JSON required and optional. Param segments from a grammar (digit strings of 1–25 digits, leading zeros, signs, digits with garbage head or tail, MIN−1/MIN/MAX/MAX+1 of every width, 1e3, 0x10, full-width digits, percent-encoded digits/signs/UTF-8, %FF, trailing %); bodies = a generated value encoded by a reference encoder of its format, valid or corrupted (truncated, missing field, wrong type, a complete value followed by more), keys percent-encoded or plain, with exact / parameterised / other / missing Content-Type or a proper prefix of the media type. Oracle: Rust FromStr on the canonical integer grammar after percent-decoding; value equality for strings/bodies; invalid or missing ⇒ status ≥ 400 and the handler did not run; Option is None iff the Content-Type is absent/other or there is no payload. Non-trivial = an integer segment that is not a plain in-range literal, an encoded segment, or a body case other than valid + exact type; distinct by case.";
     const ASSUMPTIONS: &'static [&'static str] = &[
         "`+5` as an integer parameter may be accepted or refused",
         "media types are matched as the framework documents (prefix of the Content-Type value); case variants of media types are not generated",
@@ -353,7 +383,7 @@ impl Property for C07 {
         let body = prop_oneof![
             2 => Just(BodyKind::None),
             4 => j_strategy().prop_map(BodyKind::Json),
-            2 => (j_strategy(), 0u8..4).prop_map(|(j, h)| BodyKind::JsonCorrupt(j, h)),
+            2 => (j_strategy(), 0u8..6).prop_map(|(j, h)| BodyKind::JsonCorrupt(j, h)),
             3 => u_strategy().prop_map(BodyKind::Form),
             1 => (u_strategy(), 0u8..3).prop_map(|(u, h)| BodyKind::FormCorrupt(u, h)),
             2 => mp_strategy().prop_map(BodyKind::Multipart),
@@ -365,7 +395,7 @@ impl Property for C07 {
         prop_oneof![
             4 => (0u8..10, any::<bool>(), int_segment(), prop::bool::weighted(0.3)).prop_map(|(ty, second, segment, extra)| Case::Int { ty, second, segment, extra }),
             2 => (0u8..3, any::<bool>(), str_segment(), prop::bool::weighted(0.3)).prop_map(|(kind, second, segment, extra)| Case::Str { kind, second, segment, extra }),
-            4 => (0u8..8, prop::option::weighted(0.8, q_strategy()), raw_query, body, ct, int_segment()).prop_map(|(route, query, raw_query, body, ct, param)| Case::Extract { route, query, raw_query, body, ct, param }),
+            4 => (0u8..10, prop::option::weighted(0.8, q_strategy()), raw_query, body, ct, int_segment()).prop_map(|(route, query, raw_query, body, ct, param)| Case::Extract { route, query, raw_query, body, ct, param }),
         ]
         .boxed()
     }
@@ -475,8 +505,10 @@ impl Property for C07 {
                 }
             }
             Case::Extract { route, query, raw_query, body, ct, param } => {
-                let route = *route % 8;
+                let route = *route % 10;
                 let (path, method) = match route {
+                    8 => ("/x/derived".to_string(), "POST"),
+                    9 => ("/x/optderived".to_string(), "POST"),
                     0 => ("/x/query".to_string(), "GET"),
                     1 => ("/x/json".to_string(), "POST"),
                     2 => ("/x/optjson".to_string(), "POST"),
@@ -568,6 +600,20 @@ impl Property for C07 {
                         Some(Some(v)) => expect_run(vec![v], obs, "optjson"),
                         Some(None) => expect_refused(obs, "optjson", "invalid-accepted"),
                         None => expect_run(vec!["null".into()], obs, "optjson"),
+                    },
+                    // derived extractor over (Query<Q>, JSON<J>): it is carried when all its parts are, invalid when a part that
+                    // is carried is invalid (parts are taken in declaration order)
+                    8 => match (&q_carried, carries("application/json")) {
+                        (None, _) => obs.ambiguous += 1,
+                        (Some(Some(q)), Some(Some(j))) => expect_run(vec![q.clone(), j], obs, "derived"),
+                        _ => expect_refused(obs, "derived", "invalid-or-missing-accepted"),
+                    },
+                    9 => match (&q_carried, carries("application/json")) {
+                        // (Query's FromRequest never says "not carried": see combo4)
+                        (None, _) | (Some(None), _) => obs.ambiguous += 1,
+                        (Some(Some(q)), Some(Some(j))) => expect_run(vec![q.clone(), j], obs, "optderived"),
+                        (Some(Some(_)), Some(None)) => expect_refused(obs, "optderived", "invalid-accepted"),
+                        (Some(Some(_)), None) => expect_run(vec!["null".into()], obs, "optderived"),
                     },
                     6 => {
                         let id = int_expect("u32", param);
